@@ -903,7 +903,6 @@ func (sc *StorageSmartContract) extendAllocation(
 
 	var (
 		diff = req.getBlobbersSizeDiff(alloc) // size difference
-		size = req.getNewBlobbersSize(alloc)  // blobber size
 
 		// keep original terms to adjust challenge pool value
 		originalTerms = make([]Terms, 0, len(alloc.BlobberAllocs))
@@ -963,7 +962,9 @@ func (sc *StorageSmartContract) extendAllocation(
 			return
 		}
 
-		details.Size = size // new size
+		// every blobber grows by the same amount its Allocated grew by; the blobbers of an allocation
+		// do not all carry the same size (one added later gets ceil(size/data) of that moment)
+		details.Size += diff // new size
 
 		// update blobber's offer
 		newOffer := details.Offer()
